@@ -93,6 +93,21 @@ var Helpers = []*HelperEntity{
 			}
 			return [][]F{r}
 		}},
+	{Name: "helper.Scalars", NIn: 1, // each wrapper on the raw input (special values included), divisors that are no powers of two
+		Build: func(p []int, in []<-chan F) []<-chan F {
+			d := helper.Duplicate(in[0], 6)
+			return []<-chan F{helper.Abs(d[0]), helper.DivideBy(d[1], 3), helper.DivideBy(d[2], 49), helper.MultiplyBy(d[3], 0.1), helper.IncrementBy(d[4], 0.1), helper.DecrementBy(d[5], 0.3)}
+		},
+		Model: func(p []int, in [][]F) [][]F {
+			return [][]F{
+				mapModel(in[0], math.Abs),
+				mapModel(in[0], func(v F) F { return v / 3 }),
+				mapModel(in[0], func(v F) F { return v / 49 }),
+				mapModel(in[0], func(v F) F { return v * 0.1 }),
+				mapModel(in[0], func(v F) F { return v + 0.1 }),
+				mapModel(in[0], func(v F) F { return v - 0.3 }),
+			}
+		}},
 	{Name: "helper.ApplyFamily", NIn: 1, // Abs, Sign, KeepPositives, IncrementBy, MultiplyBy, DivideBy, DecrementBy, Pow, Sqrt, RoundDigits
 		Build: func(p []int, in []<-chan F) []<-chan F {
 			c := helper.DecrementBy(in[0], 3)
@@ -561,7 +576,7 @@ func helperInputs(lens []int, seed int64) [][]F {
 				in[i][k] = F(rng.Intn(14) - 4) // -4..9: negatives and zero included
 			}
 			if rng.Intn(60) == 0 {
-				in[i][k] = []F{math.NaN(), math.Inf(1), math.Inf(-1)}[rng.Intn(3)] // not-a-number and infinities are values too
+				in[i][k] = []F{math.NaN(), math.Inf(1), math.Inf(-1), math.Copysign(0, -1)}[rng.Intn(4)] // not-a-number, infinities and the negative zero are values too
 			}
 		}
 	}
